@@ -229,6 +229,7 @@ def _str_consts_in(node, fname):
 class LabelUnit:
     kind = "labels"
     name = "ctparse._get_labels"
+    qualnames = ["ctparse._get_labels"]
     props = {"C10", "C12", "C01"}
     cost = 1
 
